@@ -26,6 +26,7 @@ func c05Code(c *Ctx, ev *c05Eval) {
 	c05CMS(c, ev)
 	c05PSS(c, ev)
 	c05Strings(c)
+	c05Names(c, ev)
 	c.Rule("R05n", "OpenPGP packet length encoding switches forms at 192 and 8384 (RFC 4880 4.2.2)", 2)
 	for _, f := range pgpLengthThresholds(c.P) {
 		c.Check(f.OK, "R05n", f.Key, f.Pos, "", f.Detail)
@@ -766,5 +767,150 @@ func c05Strings(c *Ctx) {
 			c.Check(g == w, "R05m", fmt.Sprintf("control block line %d is %q", i+1, w), p.Pos(fn.Pos()), g, fmt.Sprintf("line %d of the signed control block is %q; dpkg-sig writes and reads %q at that place (Version: 4, Signer, Date, Role, Files): dpkg-sig --verify does not recognise the member", i+1, g, w))
 		}
 		c.Check(prefix == "_gpg", "R05m", "signature member is named _gpg<role>", p.Pos(fn.Pos()), prefix, "dpkg-sig looks for archive members named _gpg followed by the role")
+	}
+}
+
+// ------------------------------------------------------------------------------ R05o
+
+// names the formats prescribe, bound by the name the code gives the constant (lower-cased)
+var refNamedStrings = map[string]string{
+	"msidigitalsignature":   "\x05DigitalSignature",
+	"msidigitalsignatureex": "\x05MsiDigitalSignatureEx",
+	"psbegin":               "SIG # Begin signature block",
+	"psend":                 "SIG # End signature block",
+	"appxsignature":         "AppxSignature.p7x",
+	"appxblockmap":          "AppxBlockMap.xml",
+	"appxcontenttypes":      "[Content_Types].xml",
+	"appxcodeintegrity":     "AppxMetadata/CodeIntegrity.cat",
+	"appxmanifest":          "AppxManifest.xml",
+	"bundlemanifestfile":    "AppxMetadata/AppxBundleManifest.xml",
+	"manifestname":          "META-INF/MANIFEST.MF",
+	"metainf":               "META-INF/",
+}
+
+func c05Names(c *Ctx, ev *c05Eval) {
+	p := c.P
+	c.Rule("R05o", "stream, member and marker names the formats prescribe have the prescribed spelling; the appx digest blob and the JAR block extension follow the specifications", 16)
+	// named string constants
+	var paths []string
+	for path, pk := range p.ByPath {
+		if pk.Types != nil && p.InModule(pk.Types) {
+			paths = append(paths, path)
+		}
+	}
+	sort.Strings(paths)
+	for _, path := range paths {
+		scope := p.ByPath[path].Types.Scope()
+		for _, name := range scope.Names() {
+			cst, ok := scope.Lookup(name).(*types.Const)
+			if !ok || cst.Val().Kind() != constant.String {
+				continue
+			}
+			want, known := refNamedStrings[strings.ToLower(name)]
+			if !known {
+				continue
+			}
+			got := constant.StringVal(cst.Val())
+			key := p.Rel(path) + "." + name
+			c.Analysed(key)
+			c.Check(got == want, "R05o", key, p.Pos(cst.Pos()), fmt.Sprintf("%q", got), fmt.Sprintf("%s is %q; the format calls that item %q: what relic writes under the other name is invisible to the platform's verifier (and an existing signature under the real name is not found when re-signing)", key, got, want))
+		}
+	}
+	// the same for package-level variables initialised with a constant string
+	for _, v := range ev.list {
+		want, known := refNamedStrings[strings.ToLower(v.obj.Name())]
+		if !known {
+			continue
+		}
+		val := ev.eval(v.pk, v.init, 0)
+		if val.kind != "string" {
+			continue
+		}
+		key := ev.varName(v)
+		c.Analysed(key)
+		c.Check(val.s == want, "R05o", key, p.Pos(val.pos), fmt.Sprintf("%q", val.s), fmt.Sprintf("%s is %q; the format calls that item %q: what relic writes under the other name is invisible to the platform's verifier (and an existing signature under the real name is not found when re-signing)", key, val.s, want))
+	}
+	// the appx signature digest blob: APPX, then AXPC AXCD AXCT AXBM and optionally AXCI, in that order
+	for _, fn := range p.pkgFuncs("lib/signappx") {
+		var tags []string
+		var first ssa.Instruction
+		for _, ci := range p.callsIn(fn, "(*bytes.Buffer).WriteString") {
+			if s, ok := constString(ci.Common().Args[1]); ok && len(s) == 4 && (strings.HasPrefix(s, "AX") || s == "APPX") {
+				tags = append(tags, s)
+				if first == nil {
+					first = ci
+				}
+			}
+		}
+		if len(tags) == 0 {
+			continue
+		}
+		c.Analysed(p.FName(fn))
+		want := "APPX AXPC AXCD AXCT AXBM AXCI"
+		c.Check(strings.Join(tags, " ") == want, "R05o", p.FName(fn)+" digest blob layout", p.Pos(first.Pos()), strings.Join(tags, " "), fmt.Sprintf("the signed digest blob of an appx is written as %q; the package format is %q (header, then the hashes of the zip contents, central directory, content types, block map and code integrity, each behind its tag): Windows recomputes the blob in its own order and rejects the package", strings.Join(tags, " "), want))
+		magic := false
+		for _, b := range fn.Blocks {
+			for _, in := range b.Instrs {
+				for _, op := range in.Operands(nil) {
+					if op != nil && *op != nil {
+						if s, ok := constString(*op); ok && s == "PKCX" {
+							magic = true
+						}
+					}
+				}
+			}
+		}
+		c.Check(magic, "R05o", p.FName(fn)+" p7x magic", p.Pos(first.Pos()), "PKCX", "AppxSignature.p7x does not start with the PKCX magic")
+	}
+	// JAR: the signature block file is named after the key type
+	if fn := p.Func("lib/signjar.sigNames"); fn == nil {
+		c.Undecided("R05o", "signjar.sigNames", "-", "function not found")
+	} else {
+		c.Analysed(p.FName(fn))
+		want := map[string]string{"*crypto/rsa.PublicKey": ".RSA", "*crypto/ecdsa.PublicKey": ".EC", "*crypto/dsa.PublicKey": ".DSA"}
+		n := 0
+		for _, b := range fn.Blocks {
+			for _, in := range b.Instrs {
+				ta, ok := in.(*ssa.TypeAssert)
+				if !ok {
+					continue
+				}
+				ext, known := want[ta.AssertedType.String()]
+				if !known {
+					continue
+				}
+				// the success side of this test
+				var okv ssa.Value
+				for _, r := range *ta.Referrers() {
+					if ex, ok := r.(*ssa.Extract); ok && ex.Index == 1 {
+						okv = ex
+					}
+				}
+				var side *ssa.BasicBlock
+				if okv != nil {
+					for _, r := range *okv.Referrers() {
+						if ifi, ok := r.(*ssa.If); ok {
+							side = ifi.Block().Succs[0]
+						}
+					}
+				}
+				if side == nil {
+					continue
+				}
+				got := ""
+				for _, sin := range side.Instrs {
+					if bo, ok := sin.(*ssa.BinOp); ok && bo.Op == token.ADD {
+						if s, ok := constString(bo.Y); ok && strings.HasPrefix(s, ".") {
+							got = s
+						}
+					}
+				}
+				n++
+				c.Check(got == ext, "R05o", "signature block extension for "+ta.AssertedType.String(), p.Pos(ta.Pos()), got, fmt.Sprintf("a signature made with a %s is stored as META-INF/<alias>%s; the JAR specification (and jarsigner's lookup) uses %s for that key type, so the JDK does not find the signature block and treats the archive as unsigned", ta.AssertedType, got, ext))
+			}
+		}
+		if n < 2 {
+			c.Undecided("R05o", "signature block extensions", p.Pos(fn.Pos()), fmt.Sprintf("%d key type tests recognised in sigNames (2 expected)", n))
+		}
 	}
 }
